@@ -1,4 +1,5 @@
 import VtProofs.FileOffset
+import VtProps.C13Memo
 import VtProps.C20
 /-!
 # C13 — concurrent reads from one opened container return what sequential reads return
